@@ -272,7 +272,9 @@ func VProxy(mode int) {
 		case 1:
 			tg.doFails = true
 		case 2:
-			tg.status = 503
+			// any status other than 200 is a failed scrape (as for Prometheus itself)
+			tg.status = zzv.Int("status")
+			zzv.Assume(100 <= tg.status && tg.status <= 599 && tg.status != 200)
 		case 3:
 			tg.gzipFails = true
 		default:
